@@ -62,9 +62,11 @@ Definition judge (c o : sexp) : verdict :=
     (* the property's quantifier *)
     let in_dom := wf t && no_single t && Nat.leb 2 (degree t) && nodup_sorted (ssort (leaves t))
                   && Nat.leb 3 (length kept) in
+    let in_dom_single := wf t && negb (no_single t) && Nat.leb 2 (degree t) && nodup_sorted (ssort (leaves t))
+                         && Nat.leb 3 (length kept) in
     let tag := (if rev then "keep" else "remove") ++
                (match removed with [] => ":none" | _ => "" end) ++
-               (if in_dom then "" else ":outside") in
+               (if in_dom then "" else if in_dom_single then ":single" else ":outside") in
     match get_string "panic" o with
     | Some p => if in_dom then VOracle ("crash: " ++ p) else VCorr ("crash outside the property's domain: " ++ p)
     | None =>
@@ -93,6 +95,16 @@ Definition judge (c o : sexp) : verdict :=
                    (if induced_tips g kept then None else Some "tip set is not the requested one");
                    (if no_single g then None else Some "a single-child inner node is left");
                    (if induced_splits t g kept then None else Some "splits are not the non-trivial restrictions of the original splits");
+                   (if induced_dists t g kept then None else Some "a path length between two remaining tips changed")]
+              else if in_dom_single then
+                (* the input has single-child nodes (outside the proviso of the theorems); when the
+                   pruning succeeds: exact tip set, unchanged path lengths, and no single-child node
+                   CREATED (those of the input whose subtree keeps a tip may remain) *)
+                first_some
+                  [audit_ok o;
+                   (if wf g then None else Some "result is not a well-formed rooted structure");
+                   (if induced_tips g kept then None else Some "tip set is not the requested one");
+                   (if singles_not_created t g kept then None else Some "a single-child inner node is left behind by the pruning");
                    (if induced_dists t g kept then None else Some "a path length between two remaining tips changed")]
               else None in
           match tree_oracle with
